@@ -296,14 +296,43 @@ func kindsGcs(in term.T) map[string]int {
 		k["with_expected_tree"]++
 	}
 	n := 0
+	prevText := false
+	var last []byte
 	for _, c := range term.List(items[1]) {
 		ci := term.TupleItems(c)
 		n += len(term.Str(ci[1])) / 2
+		b, _ := hex.DecodeString(term.Str(ci[1]))
+		if len(b) > 0 {
+			last = b
+		}
 		if term.Bool(ci[0]) {
 			k["layout_chunk"]++
+			if bytes.Contains(b, []byte("#")) {
+				k["layout_hash_comment"]++
+			}
+			if bytes.Contains(b, []byte("//")) {
+				k["layout_slash_comment"]++
+			}
+			if bytes.Contains(b, []byte("\r\n")) {
+				k["layout_crlf"]++
+			}
+			if bytes.Contains(b, []byte("\t")) {
+				k["layout_tab"]++
+			}
+			if len(b) > 0 && b[0] != ' ' && b[0] != '\n' && b[0] != '\t' && b[0] != '\r' {
+				k["layout_comment_glued_to_token"]++
+			}
+			prevText = false
 		} else {
 			k["text_chunk"]++
+			if prevText {
+				k["tokens_glued"]++
+			}
+			prevText = true
 		}
+	}
+	if len(last) > 0 && last[len(last)-1] != '\n' {
+		k["no_trailing_newline"]++
 	}
 	switch {
 	case n == 0:
